@@ -6,6 +6,7 @@ func init() {
 			ruleFrameKindFloor(c, "C13.0")
 			ruleEmitIDs(c, "C13.1")
 			ruleSettingsEmit(c, "C13.2")
+			ruleNegotiationSymmetry(c, "C13.2b")
 			ruleEnvelopeShape(c, "C13.3")
 			ruleChunkAccounting(c, "C13.3b")
 			ruleReserveBeforeSend(c, "C13.3c")
